@@ -183,10 +183,20 @@ func VH_C07_Get() {
 	m := vh.Concrete(vh.Choice("m", vh.Param("M", 4)))
 	var arts []vhArt
 	for k := 0; k < m; k++ {
-		a := vhArtifact(k, subj, k != 2)
+		a := vhArtifact(k, subj, k != 3) // at1, at2, at1, (config fallback), at1
 		r := vhPutManifest(s, "a", a.dig.String(), types.MediaTypeOCI1Manifest, a.body)
 		vh.Assert(r.Status() == 201 && r.HeaderMap.Get("OCI-Subject") == subj.Digest.String(), "C07.setup")
 		arts = append(arts, a)
+	}
+	// the page cache may be warm: an earlier listing of the same subject, unfiltered or
+	// filtered, has been served since the last change
+	switch vh.Choice("warm", 3) {
+	case 1:
+		vhDo(s, "GET", "/v2/a/referrers/"+subj.Digest.String(), nil, nil, nil)
+		vh.Tag("warm", "unfiltered-listing-before")
+	case 2:
+		vhDo(s, "GET", "/v2/a/referrers/"+subj.Digest.String(), vhQ("artifactType", "application/vnd.test.at1"), nil, nil)
+		vh.Tag("warm", "filtered-listing-before")
 	}
 	effLimit := limit
 	if vh.ConcreteBool(limit == 0) {
